@@ -429,3 +429,92 @@ tl_len, tl_nth, tl_snoc = _listfns('tl', TL, TLs, 'tnil', 'tcons', 'thd', 'ttl',
 il_index = _rec('il_index', IdL, I, I)
 _def(il_index, [_l, _x], z3.If(IDL.is_('inil', _l), z3.IntVal(0),
                                z3.If(IDL.get('icons', 'ihd', _l) == _x, z3.IntVal(0), 1 + il_index(IDL.get('icons', 'itl', _l), _x))))
+
+# ---- the checker's capture rule (document: every traversed binder's variable must be JUDGED fresh in the plug) ---------------
+# The judgement used is a parameter (the reflected Rust judgement), so these are built by a factory.
+def mk_mcap(efresh, sfresh, suffix='rs'):
+    mce = _rec('mcap_e_' + suffix, MPat, I, MPat, B)
+    _def(mce, [p, y, q], _case(p, [
+        ('Implies', lambda l, r: z3.Or(mce(l, y, q), mce(r, y, q))),
+        ('App', lambda l, r: z3.Or(mce(l, y, q), mce(r, y, q))),
+        ('Exists', lambda v, s: z3.And(v != y, z3.Or(z3.Not(efresh(q, v)), mce(s, y, q)))),
+        ('Mu', lambda v, s: z3.Or(z3.Not(sfresh(q, v)), mce(s, y, q))),
+    ], z3.BoolVal(False)))
+    mcs = _rec('mcap_s_' + suffix, MPat, I, MPat, B)
+    _def(mcs, [p, y, q], _case(p, [
+        ('Implies', lambda l, r: z3.Or(mcs(l, y, q), mcs(r, y, q))),
+        ('App', lambda l, r: z3.Or(mcs(l, y, q), mcs(r, y, q))),
+        ('Exists', lambda v, s: z3.Or(z3.Not(efresh(q, v)), mcs(s, y, q))),
+        ('Mu', lambda v, s: z3.And(v != y, z3.Or(z3.Not(sfresh(q, v)), mcs(s, y, q)))),
+    ], z3.BoolVal(False)))
+    return mce, mcs
+
+# ---- Rust Instantiate: (vars, plugs) slices as a map; which metavariables are hit ---------------------------------------------
+vs_ = z3.Const('vs_', IdL)
+ps_ = z3.Const('ps_', ML)
+mzip = _rec('mzip', IdL, ML, MMap)
+_def(mzip, [vs_, ps_], z3.If(z3.Or(IDL.is_('inil', vs_), MLs.is_('lnil', ps_)), MMp.mk('mnil'),
+                             MMp.mk('mcons', IDL.get('icons', 'ihd', vs_), MLs.get('lcons', 'lhd', ps_),
+                                    mzip(IDL.get('icons', 'itl', vs_), MLs.get('lcons', 'ltl', ps_)))))
+mv_hit = _rec('mv_hit', MPat, IdL, B)
+_def(mv_hit, [p, vs_], _case(p, [
+    ('Implies', lambda l, r: z3.Or(mv_hit(l, vs_), mv_hit(r, vs_))),
+    ('App', lambda l, r: z3.Or(mv_hit(l, vs_), mv_hit(r, vs_))),
+    ('Exists', lambda v, s: mv_hit(s, vs_)),
+    ('Mu', lambda v, s: mv_hit(s, vs_)),
+    ('MetaVar', lambda n, a, b, c, d, e: mem(n, vs_)),
+    ('ESubst', lambda b, v, pl: z3.Or(mv_hit(b, vs_), mv_hit(pl, vs_))),
+    ('SSubst', lambda b, v, pl: z3.Or(mv_hit(b, vs_), mv_hit(pl, vs_))),
+], z3.BoolVal(False)))
+
+
+def mk_all_judged(name, judgement):
+    """all_J(ids, q) = every id in ids is judged J in q"""
+    f = _rec(name, IdL, MPat, B)
+    _def(f, [_il, q], z3.If(IDL.is_('inil', _il), True,
+                            z3.And(judgement(q, IDL.get('icons', 'ihd', _il)), f(IDL.get('icons', 'itl', _il), q))))
+    return f
+
+
+def mk_inst_ok(rsf, mce, mcs):
+    """The document's InstantiateSchema.well_formed (minus app_ctx_holes, see known findings) + capture-free resolution of
+    pending substitutions: the condition under which instantiate_internal must NOT panic, and which holds when it returns."""
+    alls = {k: mk_all_judged('rs_all_' + k, rsf[k]) for k in ('e_fresh', 's_fresh', 'positive', 'negative')}
+    ok = _rec('rs_inst_ok', MPat, IdL, ML, B)
+
+    def mv(n, a, b, c, d, e):
+        plug = ml_nth(ps_, il_index(vs_, n))
+        return z3.Implies(mem(n, vs_), z3.And(il_index(vs_, n) < ml_len(ps_), alls['e_fresh'](a, plug), alls['s_fresh'](b, plug),
+                                              alls['positive'](c, plug), alls['negative'](d, plug)))
+
+    def sub(mc):
+        def f(b, v, pl):
+            hit = z3.Or(mv_hit(b, vs_), mv_hit(pl, vs_))
+            dl = mzip(vs_, ps_)
+            return z3.And(ok(b, vs_, ps_), ok(pl, vs_, ps_), z3.Implies(hit, z3.Not(mc(minst_rs(b, dl), v, minst_rs(pl, dl)))))
+        return f
+    _def(ok, [p, vs_, ps_], _case(p, [
+        ('Implies', lambda l, r: z3.And(ok(l, vs_, ps_), ok(r, vs_, ps_))),
+        ('App', lambda l, r: z3.And(ok(l, vs_, ps_), ok(r, vs_, ps_))),
+        ('Exists', lambda v, s: ok(s, vs_, ps_)),
+        ('Mu', lambda v, s: ok(s, vs_, ps_)),
+        ('MetaVar', mv),
+        ('ESubst', sub(mce)),
+        ('SSubst', sub(mcs)),
+    ], z3.BoolVal(True)))
+    return ok, alls
+
+il2_ = z3.Const('il2_', IdL)
+il_intersects = _rec('il_intersects', IdL, IdL, B)
+_def(il_intersects, [_il, il2_], z3.If(IDL.is_('inil', _il), False,
+                                       z3.Or(mem(IDL.get('icons', 'ihd', _il), il2_), il_intersects(IDL.get('icons', 'itl', _il), il2_))))
+ml_all_wf = _rec('ml_all_wf', ML, B)
+_def(ml_all_wf, [ml_], z3.If(MLs.is_('lnil', ml_), True, z3.And(wf_rs(MLs.get('lcons', 'lhd', ml_)), ml_all_wf(MLs.get('lcons', 'ltl', ml_)))))
+
+tl_all_wf = _rec('tl_all_wf', TL, B)
+_def(tl_all_wf, [tl_], z3.If(TLs.is_('tnil', tl_), True,
+                             z3.And(wf_rs(z3.If(TRM.is_('Pat', TLs.get('tcons', 'thd', tl_)), TRM.get('Pat', 'pat', TLs.get('tcons', 'thd', tl_)),
+                                                TRM.get('Prf', 'prf', TLs.get('tcons', 'thd', tl_)))),
+                                    tl_all_wf(TLs.get('tcons', 'ttl', tl_)))))
+mwf_rs = _rec('mwf_rs', MMap, B)
+_def(mwf_rs, [mm], z3.If(MMp.is_('mnil', mm), True, z3.And(wf_rs(MMp.get('mcons', 'mval', mm)), mwf_rs(MMp.get('mcons', 'mtl', mm)))))
